@@ -927,6 +927,42 @@ func rangeLoops(fn *ssa.Function) []*RangeLoop {
 				}
 			}
 		}
+		// explicit index form: for i := 0; i < len(X); i++ { … X[i] … }
+		if cmp, ok := iff.Cond.(*ssa.BinOp); ok && cmp.Op == token.LSS {
+			if phi, ok := cmp.X.(*ssa.Phi); ok && phi.Block() == b && len(phi.Edges) == 2 {
+				if lc, ok := cmp.Y.(*ssa.Call); ok {
+					if bi, ok := lc.Call.Value.(*ssa.Builtin); ok && bi.Name() == "len" {
+						fromZero, byOne := false, false
+						for _, e := range phi.Edges {
+							if isConstZero(e) {
+								fromZero = true
+							}
+							if inc, isB := e.(*ssa.BinOp); isB && inc.Op == token.ADD && inc.X == ssa.Value(phi) {
+								if k, isK := intConst(inc.Y); isK && k == 1 {
+									byOne = true
+								}
+							}
+						}
+						if fromZero && byOne {
+							l := &RangeLoop{Header: b, Body: b.Succs[0], Done: b.Succs[1], Ranged: lc.Call.Args[0]}
+							for _, r := range *phi.Referrers() {
+								switch x := r.(type) {
+								case *ssa.IndexAddr:
+									if x.Index == ssa.Value(phi) && sameIndexValue(x.X, l.Ranged) {
+										l.Elem = append(l.Elem, x)
+									}
+								case *ssa.Index:
+									if x.Index == ssa.Value(phi) && sameIndexValue(x.X, l.Ranged) {
+										l.Elem = append(l.Elem, x)
+									}
+								}
+							}
+							out = append(out, l)
+						}
+					}
+				}
+			}
+		}
 		// map/string form: t = next(range X); if extract t #0
 		if ex, ok := iff.Cond.(*ssa.Extract); ok && ex.Index == 0 {
 			if nx, ok := ex.Tuple.(*ssa.Next); ok {
